@@ -966,13 +966,28 @@ Fixpoint qsize (q : query) : nat :=
 
 Definition depth_fuel (q : query) : nat := (4 * qsize q + 8)%nat.
 
-Definition loop_fuel (sn : snapshot) (f : Z) : nat :=
-  Z.to_nat ((total_docs sn + 2) * (f + 3)).
+(* the largest number of children of any node *)
+Fixpoint swidth (s : searcher) : nat :=
+  let lmax := fix lmax (l : list searcher) : nat := match l with [] => O | x :: r => Nat.max (swidth x) (lmax r) end in
+  match s with
+  | SConj st => match st with Build_conj_st _ cs _ _ _ => Nat.max (length cs) (lmax cs) end
+  | SDisjS st => match st with Build_dsl_st _ cs _ _ _ _ _ => Nat.max (length cs) (lmax cs) end
+  | SDisjH st => match st with Build_dhp_st _ cs _ _ _ _ => Nat.max (length cs) (lmax cs) end
+  | SBool st => match st with
+                | Build_bool_st _ m sh mn _ _ _ _ _ _ =>
+                    let o := fun x => match x with Some c => swidth c | None => O end in
+                    Nat.max 3 (Nat.max (o m) (Nat.max (o sh) (o mn)))
+                end
+  | SPhrase st => match st with Build_phr_st _ c _ _ _ _ => Nat.max 1 (swidth c) end
+  | SFilter st => match st with Build_flt_st _ c _ => Nat.max 1 (swidth c) end
+  | _ => O
+  end.
 
-(* the width bound handed to loop_fuel: every composite has at most this many children *)
-Definition width_bound (sn : snapshot) (q : query) : Z :=
-  Z.of_nat (qsize q) + Z.of_nat (length (flat_map (fun s => flat_map (fun d => flat_map (fun p => snd p) (d_fields d)) (seg_docs s)) sn)).
+(* loop fuel: (documents + 2) * (width + 3)^2 covers the leap-frog loop of the widest conjunction
+   ((w+2)((w+1)N) + w + 3 iterations, SearchersProofsConj.conj_fuel) and the candidate loops (N + 2) *)
+Definition loop_fuel (sn : snapshot) (w : nat) : nat :=
+  Z.to_nat ((total_docs sn + 2) * ((Z.of_nat w + 3) * (Z.of_nat w + 3))).
 
 Definition run (sn : snapshot) (o : copts) (q : query) : res (list Z) :=
   s <- compile sn o q ;;
-  run_loop (loop_fuel sn (width_bound sn q)) (depth_fuel q) (S (Z.to_nat (total_docs sn))) s [].
+  run_loop (loop_fuel sn (swidth s)) (depth_fuel q) (S (Z.to_nat (total_docs sn))) s [].
